@@ -28,13 +28,34 @@ def enclosing_ifs(pm, node):
     return out
 
 
+def kernel_roles(f):
+    """(raster, other array parameters in signature order) of a per-cell kernel: the raster is the parameter read with
+    two indices / asked for its shape; names and positions do not matter"""
+    def two_d(p):
+        return any((isinstance(x, ast.Subscript) and isinstance(x.value, ast.Name) and x.value.id == p and
+                    isinstance(x.slice, ast.Tuple) and len(x.slice.elts) == 2) or
+                   (isinstance(x, ast.Attribute) and x.attr == 'shape' and isinstance(x.value, ast.Name) and x.value.id == p)
+                   for x in ast.walk(f.node))
+    ras = [p for p in f.params if two_d(p)]
+    if len(ras) != 1:
+        raise AnalysisIncomplete('%s: raster parameter not identified (%s)' % (f.qualname, ras))
+    return ras[0], [p for p in f.params if p != ras[0]]
+
+
 def check_cpu_bin(prog, rep, m):
     f = m.funcs.get('_cpu_bin')
     if f is None:
         raise AnalysisIncomplete('_cpu_bin not found')
     entry = 'reclassify/_bin'
     pm = parent_map(f.node)
-    data, bins, newv = f.params[:3]
+    data, others = kernel_roles(f)
+    # of the two 1-D parameters the labels are the one whose element is stored into the output, the breaks the other
+    stored = {x.value.value.id for x in ast.walk(f.node) if isinstance(x, ast.Assign) and isinstance(x.targets[0], ast.Subscript) and
+              isinstance(x.value, ast.Subscript) and isinstance(x.value.value, ast.Name) and x.value.value.id in others}
+    if len(others) != 2 or len(stored) != 1:
+        raise AnalysisIncomplete('_cpu_bin: break / label parameters not identified (%s, stored %s)' % (others, sorted(stored)))
+    newv = next(iter(stored))
+    bins = [p for p in others if p != newv][0]
     # output NaN initialised
     k = interpret(prog, f)
     rets = [v for v, g in k.returns]
@@ -141,7 +162,10 @@ def check_binary(prog, rep, m):
     ones = [s for s in stores if s.value == Rat.const(1)]
     zeros = [s for s in stores if s.value == Rat.const(0)]
     other = [s for s in stores if s not in ones and s not in zeros]
-    data, values = f.params[:2]
+    data, others = kernel_roles(f)
+    if len(others) != 1:
+        raise AnalysisIncomplete('_cpu_binary: value-list parameter not identified (%s)' % others)
+    values = others[0]
 
     def is_member(g, yv, xv):
         # truth(reduce:any(bool(values == data[y,x])))
